@@ -61,6 +61,9 @@ pub struct Case {
     pub chrom_sel: u8,
     pub item_sel: u8,
     pub degenerate: Degenerate,
+    /// text sources only: also feed the same text to the command-line converter and judge its exit
+    #[serde(default)]
+    pub cli: bool,
 }
 
 pub struct C13;
@@ -433,6 +436,8 @@ impl Prop for C13 {
          unknown chromosome; chromosome order with sorted input required; malformed line (non-numeric, missing column, negative, blank); empty input} x {in front of the first, after the first, middle, last item} x {first, middle, last chromosome} \
          x {bigWig, bigBed} x {infallible iterator, fallible iterator, serial text, parallel text} x {single, two pass} (that grid once as fixed cases, plus generated bases/options); \
          oracle: the call returns Err (Ok is a violation), does not panic and returns within the deadline; valid degenerate inputs (only zero-length items, one item, items only at 0 / at the end, one chromosome all zero-length) must return, and if Ok the file must read back. \
+         Text-source cases (all of the fixed grid, a quarter of the generated ones) also go through the real bedgraphtobigwig / bedtobigbed binaries with the matching flags (-t, --parallel, --single-pass, --uncompressed, --inmemory, --sorted, --block-size, --items-per-slot, --zooms/--nzooms): \
+         the tool must terminate (30 s, confirmed with 90 s), must not exit by panic (status 101) or signal, and must not exit 0 leaving a file the reader opens when a violation was injected. \
          non-trivial = violation not at the first item of the first chromosome; distinct = distinct case JSON"
             .into()
     }
@@ -443,6 +448,7 @@ impl Prop for C13 {
         vec![
             "a panic counts when it reaches the caller of write()/write_multipass(); panics contained inside spawned tasks are labelled, not judged".into(),
             "per-case deadline 20 s (cases take milliseconds); a deadline hit is confirmed alone with 90 s before it is reported".into(),
+            "command-line part: a refusal that exits 0 without leaving a readable file is labelled, not judged (the statement speaks of the write call's error value); a panic message on stderr together with an ordinary error exit is a panic contained in a spawned task (labelled)".into(),
         ]
     }
     fn case_deadline_s() -> u64 {
@@ -467,13 +473,14 @@ impl Prop for C13 {
                 Degenerate::OneChromAllZeroLength,
             ]),
             any::<bool>(),
+            prop::bool::weighted(0.25),
         )
-            .prop_flat_map(move |(o, inject, cs, is, deg, tp)| {
+            .prop_flat_map(move |(o, inject, cs, is, deg, tp, cli)| {
                 let o = fix_opts(o, inject, tp);
                 let sorted = o.sorted_chroms;
-                (gen::bw_input(mc, 30, sorted), Just((o, inject, cs, is, deg)))
+                (gen::bw_input(mc, 30, sorted), Just((o, inject, cs, is, deg, cli)))
             })
-            .prop_map(|(input, (mut o, inject, cs, is, deg))| {
+            .prop_map(|(input, (mut o, inject, cs, is, deg, cli))| {
                 let deg = if inject == Inject::None { deg } else { Degenerate::No };
                 // keep the number of zoom sections (one spawned task each) small: cases must stay
                 // milliseconds long so that the termination deadline means something
@@ -486,6 +493,7 @@ impl Prop for C13 {
                     chrom_sel: cs,
                     item_sel: is,
                     degenerate: deg,
+                    cli,
                 }
             });
         let bb = (
@@ -502,13 +510,14 @@ impl Prop for C13 {
                 Degenerate::OneChromAllZeroLength,
             ]),
             any::<bool>(),
+            prop::bool::weighted(0.25),
         )
-            .prop_flat_map(move |(o, inject, cs, is, deg, tp)| {
+            .prop_flat_map(move |(o, inject, cs, is, deg, tp, cli)| {
                 let o = fix_opts(o, inject, tp);
                 let sorted = o.sorted_chroms;
-                (gen::bb_input(mc, 30, sorted, true), Just((o, inject, cs, is, deg)))
+                (gen::bb_input(mc, 30, sorted, true), Just((o, inject, cs, is, deg, cli)))
             })
-            .prop_map(|(mut input, (mut o, inject, cs, is, deg))| {
+            .prop_map(|(mut input, (mut o, inject, cs, is, deg, cli))| {
                 let deg = if inject == Inject::None { deg } else { Degenerate::No };
                 let bases: u64 = input.chroms.iter().map(|c| c.entries.iter().map(|v| (v.e - v.s) as u64).sum::<u64>()).sum();
                 gen::tame_zooms(bases, input.n_items() as u64, &mut o, 1500);
@@ -521,6 +530,7 @@ impl Prop for C13 {
                     chrom_sel: cs,
                     item_sel: is,
                     degenerate: deg,
+                    cli,
                 }
             });
         prop_oneof![bw, bb].boxed()
@@ -569,6 +579,7 @@ impl Prop for C13 {
                                     chrom_sel: cs,
                                     item_sel: is,
                                     degenerate: Degenerate::No,
+                                    cli: true,
                                 });
                             }
                         }
@@ -589,6 +600,7 @@ impl Prop for C13 {
             chrom_sel: 0,
             item_sel: 0,
             degenerate: Degenerate::No,
+            cli: false,
         });
         for multipass in [false, true] {
             let mut o2 = o.clone();
@@ -605,106 +617,222 @@ impl Prop for C13 {
                 chrom_sel: 0,
                 item_sel: 0,
                 degenerate: Degenerate::No,
+                cli: false,
             });
         }
         v
     }
     fn check(case: &Case, obs: &mut Obs) -> Result<(), String> {
-        gen::label_opts(&case.opts, obs);
-        obs.label(&format!("inject={:?}", case.inject));
-        obs.label(&format!("degenerate={:?}", case.degenerate));
-        obs.label(if matches!(case.base, Base::Bw(_)) { "bigwig" } else { "bigbed" });
-        obs.label(&format!("at=chrom{}-item{}", case.chrom_sel, case.item_sel));
-        let b = build(case);
-        let sink = SharedSink::new();
-        let is_bw = matches!(case.base, Base::Bw(_));
-        let r = if is_bw {
-            drive::write_bw_raw(b.bw_items.clone(), b.sizes.clone(), &case.opts, sink.clone(), b.text.clone())
-        } else {
-            drive::write_bb_raw(
-                b.bb_items.clone(),
-                b.sizes.clone(),
-                b.autosql.clone(),
-                &case.opts,
-                sink.clone(),
-                b.text.clone(),
-            )
-        };
-        let bg = crate::runner::take_last_panic();
-        obs.label_if(!bg.is_empty(), "panic-contained-in-spawned-task");
-        if !bg.is_empty() {
-            obs.notes.push(format!("contained panic ({}): {}", b.what, bg));
-        }
-        if b.invalid {
-            obs.nontrivial = !(case.chrom_sel == 0 && case.item_sel == 0);
-            match r {
-                Err(_) => {
-                    obs.label("refused");
-                    Ok(())
-                }
-                Ok(()) => Err(format!(
-                    "input with an injected violation ({}) was accepted: write returned Ok",
-                    b.what
-                )),
+        check_lib(case, obs)?;
+        check_cli(case, obs)
+    }
+}
+
+fn check_lib(case: &Case, obs: &mut Obs) -> Result<(), String> {
+    gen::label_opts(&case.opts, obs);
+    obs.label(&format!("inject={:?}", case.inject));
+    obs.label(&format!("degenerate={:?}", case.degenerate));
+    obs.label(if matches!(case.base, Base::Bw(_)) { "bigwig" } else { "bigbed" });
+    obs.label(&format!("at=chrom{}-item{}", case.chrom_sel, case.item_sel));
+    let b = build(case);
+    let sink = SharedSink::new();
+    let is_bw = matches!(case.base, Base::Bw(_));
+    let r = if is_bw {
+        drive::write_bw_raw(b.bw_items.clone(), b.sizes.clone(), &case.opts, sink.clone(), b.text.clone())
+    } else {
+        drive::write_bb_raw(
+            b.bb_items.clone(),
+            b.sizes.clone(),
+            b.autosql.clone(),
+            &case.opts,
+            sink.clone(),
+            b.text.clone(),
+        )
+    };
+    let bg = crate::runner::take_last_panic();
+    obs.label_if(!bg.is_empty(), "panic-contained-in-spawned-task");
+    if !bg.is_empty() {
+        obs.notes.push(format!("contained panic ({}): {}", b.what, bg));
+    }
+    if b.invalid {
+        obs.nontrivial = !(case.chrom_sel == 0 && case.item_sel == 0);
+        match r {
+            Err(_) => {
+                obs.label("refused");
+                Ok(())
             }
-        } else {
-            obs.nontrivial = case.degenerate != Degenerate::No;
-            match r {
-                Err(e) => {
-                    obs.label("valid-input-refused");
-                    obs.notes.push(format!("valid (degenerate={:?}) input refused: {}", case.degenerate, e));
-                    Ok(())
-                }
-                Ok(()) => {
-                    // the file must read back (C01/C02 oracle, minus the recorded findings K1/K2)
-                    let bytes = sink.bytes();
-                    if is_bw {
-                        let mut rd = open_bw(bytes)?;
-                        if let Base::Bw(input) = &case.base {
-                            check_chrom_table(rd.chroms(), &bw_expected_chroms(input))?;
-                            for c in &input.chroms {
-                                let got = read_bw_full(&mut rd, c)?;
-                                let want: Vec<BwVal> = c
-                                    .vals
-                                    .iter()
-                                    .filter(|v| !(v.s == v.e && (v.s == 0 || v.s == c.size)))
-                                    .cloned()
-                                    .collect();
-                                let got: Vec<BwVal> = got
-                                    .into_iter()
-                                    .filter(|v| !(v.s == v.e && (v.s == 0 || v.s == c.size)))
-                                    .collect();
-                                if !same_vals(&got, &want) {
-                                    return Err(format!(
-                                        "degenerate valid input accepted but reads back differently on {:?}: {}",
-                                        c.name,
-                                        first_diff_vals(&got, &want)
-                                    ));
-                                }
-                            }
-                        }
-                    } else {
-                        let mut rd = open_bb(bytes)?;
-                        if let Base::Bb(input) = &case.base {
-                            check_chrom_table(rd.chroms(), &bb_expected_chroms(input))?;
-                            for c in &input.chroms {
-                                if c.entries.iter().any(|e| e.s == 0 && e.e == 0) {
-                                    continue; // K2
-                                }
-                                let got = read_bb_range(&mut rd, &c.name, 0, c.size)?;
-                                if got != c.entries {
-                                    return Err(format!(
-                                        "degenerate valid input accepted but reads back differently on {:?}: {}",
-                                        c.name,
-                                        first_diff_entries(&got, &c.entries)
-                                    ));
-                                }
+            Ok(()) => Err(format!(
+                "input with an injected violation ({}) was accepted: write returned Ok",
+                b.what
+            )),
+        }
+    } else {
+        obs.nontrivial = case.degenerate != Degenerate::No;
+        match r {
+            Err(e) => {
+                obs.label("valid-input-refused");
+                obs.notes.push(format!("valid (degenerate={:?}) input refused: {}", case.degenerate, e));
+                Ok(())
+            }
+            Ok(()) => {
+                // the file must read back (C01/C02 oracle, minus the recorded findings K1/K2)
+                let bytes = sink.bytes();
+                if is_bw {
+                    let mut rd = open_bw(bytes)?;
+                    if let Base::Bw(input) = &case.base {
+                        check_chrom_table(rd.chroms(), &bw_expected_chroms(input))?;
+                        for c in &input.chroms {
+                            let got = read_bw_full(&mut rd, c)?;
+                            let want: Vec<BwVal> = c
+                                .vals
+                                .iter()
+                                .filter(|v| !(v.s == v.e && (v.s == 0 || v.s == c.size)))
+                                .cloned()
+                                .collect();
+                            let got: Vec<BwVal> = got
+                                .into_iter()
+                                .filter(|v| !(v.s == v.e && (v.s == 0 || v.s == c.size)))
+                                .collect();
+                            if !same_vals(&got, &want) {
+                                return Err(format!(
+                                    "degenerate valid input accepted but reads back differently on {:?}: {}",
+                                    c.name,
+                                    first_diff_vals(&got, &want)
+                                ));
                             }
                         }
                     }
-                    Ok(())
+                } else {
+                    let mut rd = open_bb(bytes)?;
+                    if let Base::Bb(input) = &case.base {
+                        check_chrom_table(rd.chroms(), &bb_expected_chroms(input))?;
+                        for c in &input.chroms {
+                            if c.entries.iter().any(|e| e.s == 0 && e.e == 0) {
+                                continue; // K2
+                            }
+                            let got = read_bb_range(&mut rd, &c.name, 0, c.size)?;
+                            if got != c.entries {
+                                return Err(format!(
+                                    "degenerate valid input accepted but reads back differently on {:?}: {}",
+                                    c.name,
+                                    first_diff_entries(&got, &c.entries)
+                                ));
+                            }
+                        }
+                    }
                 }
+                Ok(())
             }
         }
     }
+}
+
+/// the same text through bedgraphtobigwig / bedtobigbed: the tool must terminate, must not panic, and
+/// must not exit 0 leaving a readable file behind when the text carries an injected violation
+fn check_cli(case: &Case, obs: &mut Obs) -> Result<(), String> {
+    use super::cli::{run_tool, tmpdir};
+    if !case.cli {
+        return Ok(());
+    }
+    let b = build(case);
+    let Some((text, _)) = b.text.clone() else {
+        return Ok(());
+    };
+    if super::cli::bindir().is_none() {
+        obs.label("tool-binaries-missing");
+        return Err("the command-line binaries are not built (VERIF_BIN): ./check builds them".into());
+    }
+    let is_bw = matches!(case.base, Base::Bw(_));
+    let dir = tmpdir("c13_")?;
+    let p = |n: &str| dir.path().join(n).to_string_lossy().to_string();
+    let mut sizes: Vec<(&String, &u32)> = b.sizes.iter().collect();
+    sizes.sort();
+    let sizes_txt: String = sizes.iter().map(|(n, s)| format!("{}\t{}\n", n, s)).collect();
+    // names that the whitespace-splitting chrom.sizes parser cannot carry are outside the tool's domain
+    if sizes.iter().any(|(n, _)| n.is_empty() || n.chars().any(|c| c.is_whitespace())) {
+        obs.label("cli-skipped-name-not-representable");
+        return Ok(());
+    }
+    std::fs::write(p("in.txt"), &text).map_err(|e| e.to_string())?;
+    std::fs::write(p("sizes"), &sizes_txt).map_err(|e| e.to_string())?;
+    let o = &case.opts;
+    let tool = if is_bw { "bedgraphtobigwig" } else { "bedtobigbed" };
+    let mut args: Vec<String> = vec![p("in.txt"), p("sizes"), p("out.bbi")];
+    let threads = (o.threads as usize).max(1);
+    args.push("-t".into());
+    args.push(threads.to_string());
+    args.push(format!("--parallel={}", if o.source == SourceKind::ParallelText { "yes" } else { "no" }));
+    if !o.multipass {
+        args.push("--single-pass".into());
+    }
+    if !o.compress {
+        args.push("--uncompressed".into());
+    }
+    if o.inmemory {
+        args.push("--inmemory".into());
+    }
+    if !o.sorted_chroms {
+        args.push("--sorted=start".into());
+    }
+    args.push(format!("--block-size={}", o.block_size));
+    args.push(format!("--items-per-slot={}", o.items_per_slot));
+    match &o.zoom {
+        ZoomSpec::Manual(v) if !v.is_empty() => args.push(format!("--zooms={}", v.iter().map(|x| x.to_string()).collect::<Vec<_>>().join(","))),
+        ZoomSpec::Manual(_) => args.push("--nzooms=0".into()),
+        ZoomSpec::Auto { max, .. } => args.push(format!("--nzooms={}", max)),
+    }
+    obs.label("cli");
+    obs.label(&format!("cli-parallel={}", o.source == SourceKind::ParallelText && threads > 1));
+    let mut out = run_tool(tool, &args, &[], 30)?;
+    if out.timed_out {
+        // confirm once, alone on the clock, before calling it a hang
+        let _ = std::fs::remove_file(p("out.bbi"));
+        out = run_tool(tool, &args, &[], 90)?;
+        if out.timed_out {
+            return Err(format!("{} {:?} did not terminate within 90 s ({})", tool, &args[3..], b.what));
+        }
+        obs.label("cli-slow-once");
+    }
+    obs.evals += 1;
+    if out.panicked() {
+        return Err(format!(
+            "{} {:?} panicked / was killed by a signal (status {:?}) on {} input: {}",
+            tool,
+            &args[3..],
+            out.code,
+            if b.invalid { format!("invalid ({})", b.what) } else { "valid".to_string() },
+            out.stderr.lines().find(|l| l.contains("panicked")).unwrap_or(out.stderr.lines().next().unwrap_or("")).trim()
+        ));
+    }
+    obs.label_if(out.contained_panic(), "cli-panic-contained-in-spawned-task");
+    if b.invalid {
+        if out.code == Some(0) {
+            // exit 0: only a violation if a file was left behind that the reader accepts
+            let accepted = match std::fs::read(p("out.bbi")) {
+                Ok(bytes) if !bytes.is_empty() => {
+                    if is_bw {
+                        open_bw(bytes).is_ok()
+                    } else {
+                        open_bb(bytes).is_ok()
+                    }
+                }
+                _ => false,
+            };
+            if accepted {
+                return Err(format!(
+                    "{} {:?} exited 0 and left a readable file although the text carries an injected violation ({})",
+                    tool,
+                    &args[3..],
+                    b.what
+                ));
+            }
+            obs.label("cli-refused-with-exit-0");
+            obs.notes.push(format!("{} refused ({}) but exited 0: {}", tool, b.what, out.stderr.lines().next().unwrap_or("")));
+        } else {
+            obs.label("cli-refused");
+        }
+    } else {
+        obs.label(if out.code == Some(0) { "cli-valid-accepted" } else { "cli-valid-refused" });
+    }
+    Ok(())
 }
